@@ -11,6 +11,7 @@ import sys
 import time
 from typing import Dict, List, Optional, Tuple
 
+sys.setrecursionlimit(20000)   # expression trees of very large generated matches nest deeply
 VERIF = os.path.dirname(os.path.dirname(os.path.abspath(__file__)))
 REPO = os.path.abspath(os.environ.get("VERIF_REPO", "/repo"))
 WORK = os.environ.get("VERIF_WORK", os.path.join(VERIF, ".work"))
